@@ -2,7 +2,7 @@
 
 Generator / enumeration: otherwise-matching replies (right user, engine id, msgID, request-id) x MAC in {valid, all-zero,
 random, one bit flipped, field absent/empty (with either flag), wrong length (6 zero octets; 1/4/11/13/24-octet prefixes of a
-correctly computed HMAC)} x flags in {auth, noAuth} x {priv as configured, sent in clear although
+correctly computed HMAC)} x flags in {auth, noAuth} (with and without the reportable / reserved msgFlags bits) x {priv as configured, sent in clear although
 privacy is configured} x body in {GetResponse, Report} x {MD5, SHA-1} x {none, DES, AES} x op in {get, get_many, getnext,
 getbulk}; each forged reply is *followed by* the genuine one.  The class grid is enumerated completely; random payloads,
 key types, users and engine ids vary around it.
@@ -24,8 +24,9 @@ CALLS = {"get": ("get", "1.3.6.1.2.1.1.3.0"), "get_many": ("get_many", ["1.3.6.1
 
 
 def forged_reply(cfg, req, cl, value):
-    """cl = (mac, authflag, clear, body)"""
-    mac, authflag, clear, body = cl
+    """cl = (mac, authflag, clear, body[, extra msgFlags bits])"""
+    mac, authflag, clear, body = cl[:4]
+    extra = cl[4] if len(cl) > 4 else 0
     name = (req["varbinds"][0][0] if req["varbinds"] else (1, 3)) + (1,)
     vbs = [rb.varbind(rb.enc_oid(name), rb.enc_int(value))]
     kw = {"mac": mac}
@@ -35,7 +36,7 @@ def forged_reply(cfg, req, cl, value):
         kw = {"mac": ("trunc", int(mac[5:]))}
     enc = bool(cfg.priv) and not clear
     kw["encrypt"] = enc
-    flags = (1 if authflag else 0) | (2 if enc else 0)
+    flags = (1 if authflag else 0) | (2 if enc else 0) | extra
     kw["flags"] = flags
     if body == "report":
         kw["pdu_tag"] = rb.PDU_REPORT
@@ -44,7 +45,7 @@ def forged_reply(cfg, req, cl, value):
 
 def acceptable(cfg, cl):
     """May this otherwise-matching message be delivered?  (the property's acceptance rule)"""
-    mac, authflag, clear, body = cl
+    mac, authflag, clear, body = cl[:4]
     authenticated = authflag and mac == "valid"
     if body == "report":
         return True  # "Only Report PDUs may be accepted without authentication": accepting or skipping are both allowed
@@ -77,15 +78,16 @@ def execute(G, cfg, op, cl, payload, link):
     name = req["varbinds"][0][0] + (1,)
     forged_val, genuine_val = 6660000 + payload, 1110000 + payload
     link.send(forged_reply(cfg, req, cl, forged_val))
-    link.send(forged_reply(cfg, req, ("valid", True, False, "response"), genuine_val))
+    link.send(forged_reply(cfg, req, ("valid", True, False, "response", 0), genuine_val))
     recv_op = op[:-1] if op.endswith("1") else op
     try:
         out = ("ok", cl_.recv(recv_op, it))
     except BaseException as e:  # noqa: BLE001
         out = ("exc", e)
     ok_forged = acceptable(cfg, cl)
-    info = "%s over %s; forged reply class mac=%s authflag=%s clear=%s body=%s -> %r" % (op, cfg.describe(), cl[0], cl[1], cl[2], cl[3], out)
-    sig_cls = "mac=%s,flag=%s,%s,%s" % (cl[0], "auth" if cl[1] else "noauth", "clear" if (cl[2] and cfg.priv) else "asconfigured", cl[3])
+    extra = cl[4] if len(cl) > 4 else 0
+    info = "%s over %s; forged reply class mac=%s authflag=%s clear=%s body=%s extra msgFlags=%#x -> %r" % (op, cfg.describe(), cl[0], cl[1], cl[2], cl[3], extra, out)
+    sig_cls = "mac=%s,flag=%s%s,%s,%s" % (cl[0], "auth" if cl[1] else "noauth", "+%#x" % extra if extra else "", "clear" if (cl[2] and cfg.priv) else "asconfigured", cl[3])
     if ok_forged:
         # first datagram is legitimate: it must be the one acted upon
         if cl[3] == "report":
@@ -114,8 +116,12 @@ def grid():
                         for body in ("response", "report"):
                             if mac == "absent" and authflag:
                                 continue  # build_reply cannot flag auth without the field; covered by 'short'/'zero'
-                            for op in OPS:
-                                yield auth, priv, (mac, authflag, clear, body), op
+                            # the reportable bit (0x04) and a reserved bit must not change the verdict
+                            for extra in (0, 4, 0x0C):
+                                for op in OPS:
+                                    if extra and op not in ("get", "getbulk1"):
+                                        continue
+                                    yield auth, priv, (mac, authflag, clear, body, extra), op
 
 
 def build_case(u):
@@ -126,7 +132,8 @@ def build_case(u):
     authflag = u.bool(3, 4) if mac != "absent" else False
     clear = bool(cfg.priv) and u.bool(1, 3)
     body = "response" if u.below(4) else "report"
-    return {"cfg": cfg, "op": u.choice(OPS), "cl": (mac, authflag, clear, body), "payload": u.below(10000)}
+    extra = (0, 0, 4, 8, 0x0C, 0x80, 0xF8, 0x04)[u.below(8)]
+    return {"cfg": cfg, "op": u.choice(OPS), "cl": (mac, authflag, clear, body, extra), "payload": u.below(10000)}
 
 
 def run(rep, tier):
@@ -151,7 +158,7 @@ def run(rep, tier):
                         return
                     break
                 total += 1
-                rep.case((auth, priv, cl, op), cl != ("valid", True, False, "response"),
+                rep.case((auth, priv, cl, op), tuple(cl[:4]) != ("valid", True, False, "response"),
                          sample={"auth": auth, "priv": priv, "class": list(cl), "op": op, "outcome": res},
                          classes=["grid", "mac:" + cl[0], "body:" + cl[3], "outcome:" + res, "priv:%s" % priv])
         if rep.violations:
@@ -161,7 +168,7 @@ def run(rep, tier):
 
         def body(c):
             res = execute(G, c["cfg"], c["op"], tuple(c["cl"]), c["payload"], link)
-            rep.case((c["cfg"].describe(), c["op"], tuple(c["cl"]), c["payload"]), tuple(c["cl"]) != ("valid", True, False, "response"),
+            rep.case((c["cfg"].describe(), c["op"], tuple(c["cl"]), c["payload"]), tuple(c["cl"][:4]) != ("valid", True, False, "response"),
                      classes=["random", "mac:" + c["cl"][0], "outcome:" + res, "kt:" + c["cfg"].auth_kt])
 
         n = 1500 if tier == "quick" else 50000
